@@ -19,7 +19,14 @@
 (*   <<"dot", a, b>>  <<"idx", a, i>>  <<"cond", p, q, a, b>> (p < q ? a : b)*)
 (*   <<"jump", t>>  <<"jumpn", t>>  <<"avg", t>>   derived forms (Expand)   *)
 (* Values are sequences of Gaussian rationals (module CQ): length 1 for a  *)
-(* scalar, 2 for a vector in R^2; << >> = "no meaning".                     *)
+(* scalar, GDim for a vector in R^GDim; << >> = "no meaning".               *)
+(*                                                                         *)
+(* The mesh is described by what the rules and the mathematics distinguish: *)
+(* degree and continuity of the coordinate field, geometric and topological *)
+(* dimension.  The two facet normals are opposite exactly on an affine      *)
+(* non-manifold mesh (NormalsOpposite); everywhere else (curved facets seen *)
+(* through a degree >= 2 or broken coordinate field, surfaces with a kink    *)
+(* at the facet: GDim > TDim) they are two independent vectors.              *)
 (*                                                                         *)
 (*   M(t, e, c)    the meaning of the ORIGINAL integrand in environment e   *)
 (*                 below restriction context c in {"0", "+", "-"}           *)
@@ -40,13 +47,19 @@
 EXTENDS Integers, Sequences, FiniteSets, TLC, Json, CQ
 
 CONSTANTS
-  TermsC,     \* sequence of [nm |-> STRING, kind |-> STRING, sh |-> 0 | 1]
-  TValC,      \* TValC[e][k] = [v |-> [p, m], g |-> [p, m], r |-> [p, m]]: value, gradient and
-              \* reference value of terminal k on the two sides in environment e
+  MeshesC,    \* the worlds of this run: sequence of mesh kinds
+              \*   [name, deg, h1, gdim, tdim]:
+              \*   deg   embedded superdegree of the coordinate element of the mesh
+              \*   h1    TRUE: the coordinate element is H1-conforming (continuous coordinate field)
+              \*   gdim  geometric dimension (length of x, n, gradients, vector-valued functions)
+              \*   tdim  topological dimension of the cells (gdim > tdim: immersed manifold)
+  TermsC,     \* TermsC[w]: the terminals of world w: sequence of [nm |-> STRING, kind |-> STRING, sh |-> 0 | 1]
+  TValC,      \* TValC[w][e][k] = [v |-> [p, m], g |-> [p, m], r |-> [p, m]]: value, gradient and
+              \* reference value of terminal k of world w on the two sides in environment e
   NEnv,       \* number of environments
-  Affine,     \* TRUE: affine non-manifold mesh (gdim = tdim, degree-1 H1 coordinate element)
   Configs,    \* sequence of bounded instances explored in this run, each a record
-              \*   [name, atoms, levels, maxnodes, maxdead]:
+              \*   [name, world, atoms, levels, maxnodes, maxdead]:
+              \*   world    index into MeshesC / TermsC / TValC
               \*   atoms    sequence of terms available as operands from the start (the terminals,
               \*            and e.g. restricted terminals: results of one or two earlier calls)
               \*   levels   levels[i] = constructors allowed for the i-th call (last entry repeats)
@@ -62,6 +75,11 @@ vars == <<store, phase, res, tab>>
 Terms == tab.terms
 TVal == tab.tval
 Atoms == tab.atoms
+\* the mesh kind of the instance
+CoordDeg == tab.mesh.deg
+CoordH1 == tab.mesh.h1
+GDim == tab.mesh.gdim
+TDim == tab.mesh.tdim
 
 Envs == 1..NEnv
 NT == Len(Terms)
@@ -74,9 +92,11 @@ DefaultSide == "+"          \* default_restriction_map["interior_facet"]
 (*   arg     argument (test/trial function): the two sides address different rows or   *)
 (*           columns of the facet tensor, independent whatever the element             *)
 (*   x       spatial coordinate                               v.p = v.m                *)
-(*   n       facet normal                                     v.m = -v.p if Affine     *)
-(*   cellq   cell-wise geometric quantity (volume, ...)       independent              *)
-(*   facetq  quantity of the facet alone (facet area, ...)    v.p = v.m                *)
+(*   n       facet normal                              v.m = -v.p if NormalsOpposite    *)
+(*   cellq   cell-wise geometric quantity (volume, cell normal, ...)  independent      *)
+(*   facetq  quantity of the physical facet alone (facet area, ...)   v.p = v.m        *)
+(*   sfacetq quantity of the facet as seen from the cell (reference normal: the facet  *)
+(*           is a different local facet of either cell)      independent              *)
 (*   const   Constant                                          v.p = v.m                *)
 (*   lit     literal number                                    v.p = v.m                *)
 (* Gradients (g) are independent for every kind: the gradient of a continuous          *)
@@ -85,16 +105,39 @@ SingleKinds == {"cg", "x", "facetq", "const", "lit"}
 ConstKinds == {"const", "lit"}
 FormArg(k) == Kind(k) \in {"cg", "dg", "arg"}
 
+(* The mathematics of the mesh kinds.  On an affine non-manifold mesh (continuous piecewise   *)
+(* linear coordinates, GDim = TDim) a facet is a flat piece of a hyperplane shared by the two  *)
+(* cells, and the two outward normals are opposite.  On an immersed manifold (GDim > TDim) the *)
+(* facet normal is the conormal, tangent to the cell: the surface may have a kink at the       *)
+(* facet, the two conormals are independent.  With a coordinate field of higher degree or a    *)
+(* broken one the property assumes nothing about the two normals either.                        *)
+MeshOK(ms) == /\ ms.deg \in 1..3 /\ ms.h1 \in BOOLEAN /\ ms.tdim \in 1..3 /\ ms.gdim \in ms.tdim..3
+              /\ ms.gdim >= 2
+OppositeOn(ms) == ms.deg <= 1 /\ ms.h1 /\ ms.gdim = ms.tdim
+NormalsOpposite == OppositeOn(tab.mesh)
+VLenOn(ms, sh) == IF sh = 0 THEN 1 ELSE ms.gdim
+
 NegV(x) == [i \in 1..Len(x) |-> CNeg(x[i])]
+Worlds == 1..Len(MeshesC)
 Admissible ==
-  \A e \in Envs : \A k \in 1..Len(TermsC) : LET tv == TValC[e][k]  kd == TermsC[k].kind IN
-    /\ Len(tv.v.p) = TermsC[k].sh + 1 /\ Len(tv.v.m) = TermsC[k].sh + 1
-    /\ Len(tv.r.p) = TermsC[k].sh + 1 /\ Len(tv.r.m) = TermsC[k].sh + 1
-    /\ Len(tv.g.p) = 2 /\ Len(tv.g.m) = 2
-    /\ kd \in SingleKinds => tv.v.p = tv.v.m
-    /\ kd = "cg" => tv.r.p = tv.r.m
-    /\ (kd = "n" /\ Affine) => tv.v.m = NegV(tv.v.p)
+  /\ Len(TermsC) = Len(MeshesC) /\ Len(TValC) = Len(MeshesC)
+  /\ \A w \in Worlds : MeshOK(MeshesC[w])
+  /\ \A w \in Worlds : \A e \in Envs : \A k \in 1..Len(TermsC[w]) :
+       LET ms == MeshesC[w]  tv == TValC[w][e][k]  kd == TermsC[w][k].kind  L == VLenOn(ms, TermsC[w][k].sh) IN
+       /\ Len(tv.v.p) = L /\ Len(tv.v.m) = L
+       /\ Len(tv.r.p) = L /\ Len(tv.r.m) = L
+       /\ Len(tv.g.p) = ms.gdim /\ Len(tv.g.m) = ms.gdim
+       /\ kd \in SingleKinds => tv.v.p = tv.v.m
+       /\ kd = "cg" => tv.r.p = tv.r.m
+       /\ (kd = "n" /\ OppositeOn(ms)) => tv.v.m = NegV(tv.v.p)
 ASSUME Admissible
+\* the environments must not assume more than the property grants: wherever the two normals are
+\* independent, some environment gives them values that are not opposite (otherwise a rewrite
+\* n('-') -> -n('+') would go unnoticed)
+Discriminating ==
+  \A w \in Worlds : \A k \in 1..Len(TermsC[w]) : (TermsC[w][k].kind = "n" /\ ~OppositeOn(MeshesC[w])) =>
+     \E e \in Envs : \A i \in 1..MeshesC[w].gdim : TValC[w][e][k].v.m[i] # CNeg(TValC[w][e][k].v.p[i])
+ASSUME Discriminating
 
 -----------------------------------------------------------------------------
 (* Values *)
@@ -104,7 +147,9 @@ Add2(x, y) == [i \in 1..Len(x) |-> CAdd(x[i], y[i])]
 Mul2(x, y) == IF Len(x) = 1 THEN [i \in 1..Len(y) |-> CMul(x[1], y[i])]
               ELSE [i \in 1..Len(x) |-> CMul(x[i], y[1])]
 Div2(x, y) == [i \in 1..Len(x) |-> CDiv(x[i], y[1])]
-Dot2(x, y) == <<CAdd(CMul(x[1], y[1]), CMul(x[2], y[2]))>>
+RECURSIVE DotTo(_, _, _)
+DotTo(x, y, n) == IF n = 1 THEN CMul(x[1], y[1]) ELSE CAdd(DotTo(x, y, n - 1), CMul(x[n], y[n]))
+Dot2(x, y) == <<DotTo(x, y, Len(x))>>
 Und(n) == [i \in 1..n |-> CU]
 Cond2(p, q, a, b) == IF ~CCmpDef(p[1], q[1]) THEN Und(Len(a))
                      ELSE IF CLt(p[1], q[1]) THEN a ELSE b
@@ -240,8 +285,10 @@ Opposite(o, c, d) ==
   ELSE IF c = DefaultSide THEN Rz(o, DefaultSide) ELSE <<"neg", Rz(o, DefaultSide)>>
 \* coefficient
 Coefficient(o, c, d) == IF Kind(o[2]) = "cg" THEN DefaultRestricted(o, c, d) ELSE RequireRestriction(o, c, d)
-\* facet_normal
-FacetNormal(o, c, d) == IF Affine THEN Opposite(o, c, d) ELSE RequireRestriction(o, c, d)
+\* facet_normal: the guard as coded (degree, H1, gd == td), not NormalsOpposite: that the rewrite is
+\* applied only where the normals are opposite is part of what Sound checks
+FacetNormal(o, c, d) ==
+  IF CoordDeg <= 1 /\ CoordH1 /\ GDim = TDim THEN Opposite(o, c, d) ELSE RequireRestriction(o, c, d)
 \* the terminal rules
 Terminal(o, c, d) ==
   LET k == Kind(o[2]) IN
@@ -251,6 +298,7 @@ Terminal(o, c, d) ==
     [] k = "n" -> FacetNormal(o, c, d)
     [] k = "cellq" -> RequireRestriction(o, c, d)      \* geometric_cell_quantity
     [] k = "facetq" -> DefaultRestricted(o, c, d)      \* facet_area, min/max_facet_edge_length, ...
+    [] k = "sfacetq" -> RequireRestriction(o, c, d)    \* geometric_facet_quantity (reference_normal, ...)
     [] k = "const" -> IgnoreRestriction(o, c, d)       \* constant
     [] k = "lit" -> IgnoreRestriction(o, c, d)         \* constant_value
 \* grad = _require_restriction: the Grad node itself is restricted, propagation stops here
@@ -297,7 +345,8 @@ P(t, c, d) ==
 -----------------------------------------------------------------------------
 (* The shape of a correct result: restrictions wrap terminals (or grad / reference_value of a *)
 (* terminal) directly, every side-dependent terminal is wrapped, constants are not; with      *)
-(* defaults every non-constant terminal is wrapped and, on affine meshes, only n('+') occurs. *)
+(* defaults every non-constant terminal is wrapped and, where the two normals are opposite,  *)
+(* only n('+') occurs.                                                                        *)
 RECURSIVE Normal(_, _)
 Normal(t, d) ==
   LET op == t[1] IN
@@ -309,7 +358,7 @@ Normal(t, d) ==
          LET u == t[2] IN
          /\ u[1] \in {"T", "grad", "rv"}
          /\ u[1] = "T" => Kind(u[2]) \notin ConstKinds
-         /\ (Validates(d) /\ Affine /\ u[1] = "T" /\ Kind(u[2]) = "n") => t[3] = DefaultSide
+         /\ (Validates(d) /\ NormalsOpposite /\ u[1] = "T" /\ Kind(u[2]) = "n") => t[3] = DefaultSide
     [] op = "var" -> FALSE
     [] op \in {"neg", "idx"} -> Normal(t[2], d)
     [] op \in {"add", "mul", "div", "dot"} -> Normal(t[2], d) /\ Normal(t[3], d)
@@ -366,13 +415,14 @@ Push(t, sh, args) ==
 
 NoRes == [d |-> "none", out |-> <<"none">>]
 \* shapes of the atoms, computed from the constants
-RECURSIVE ShC(_)
-ShC(t) == CASE t[1] = "T" -> TermsC[t[2]].sh [] t[1] = "grad" -> 1 [] t[1] = "rv" -> TermsC[t[2]].sh
-            [] t[1] = "R" -> ShC(t[2])
+RECURSIVE ShC(_, _)
+ShC(w, t) == CASE t[1] = "T" -> TermsC[w][t[2]].sh [] t[1] = "grad" -> 1 [] t[1] = "rv" -> TermsC[w][t[2]].sh
+               [] t[1] = "R" -> ShC(w, t[2])
 Init == /\ store = << >> /\ phase = "build" /\ res = NoRes
         /\ \E c \in 1..Len(Configs) : LET cf == Configs[c] IN
-             tab = [terms |-> TermsC, tval |-> TValC, cfg |-> cf.name, atoms |-> cf.atoms,
-                    ash |-> [i \in 1..Len(cf.atoms) |-> ShC(cf.atoms[i])], levels |-> cf.levels,
+             tab = [world |-> cf.world, mesh |-> MeshesC[cf.world], terms |-> TermsC[cf.world],
+                    tval |-> TValC[cf.world], cfg |-> cf.name, atoms |-> cf.atoms,
+                    ash |-> [i \in 1..Len(cf.atoms) |-> ShC(cf.world, cf.atoms[i])], levels |-> cf.levels,
                     maxnodes |-> cf.maxnodes, maxdead |-> cf.maxdead]
 
 Use(a) == Push(Atoms[a], tab.ash[a], << >>)
@@ -422,7 +472,7 @@ Build ==
           \/ "R" \in ops /\ \E s \in {"+", "-"} : DoRestrict(a, s)
           \/ "var" \in ops /\ DoVar(a)
           \/ "neg" \in ops /\ DoNeg(a)
-          \/ "idx" \in ops /\ \E i \in {0, 1} : DoIdx(a, i)
+          \/ "idx" \in ops /\ \E i \in 0..(GDim - 1) : DoIdx(a, i)
           \/ "jump" \in ops /\ DoJump(a)
           \/ "avg" \in ops /\ DoAvg(a)
           \/ "jumpn" \in ops /\ DoJumpN(a)
@@ -468,7 +518,8 @@ DeviationKeepsMissing == Deviation => \A e \in Envs : Len(M(res.out, e, "0")) = 
 
 TypeOK ==
   /\ phase \in {"build", "applied"} /\ res.d \in {"default", "none", "check"}
-  /\ tab.terms = TermsC /\ tab.tval = TValC
+  /\ tab.world \in Worlds /\ tab.mesh = MeshesC[tab.world]
+  /\ tab.terms = TermsC[tab.world] /\ tab.tval = TValC[tab.world]
   /\ \A i \in 1..Len(store) : store[i].sh = Sh(store[i].t)
   /\ Len(store) <= MaxNodes
 
@@ -486,7 +537,7 @@ Live == Len(store) >= 1 /\ (NA + 1)..(NA + Len(store)) \subseteq Anc(NA + Len(st
 RECURSIVE SetToSeq(_)
 SetToSeq(S) == IF S = {} THEN << >> ELSE LET x == CHOOSE y \in S : TRUE IN <<x>> \o SetToSeq(S \ {x})
 DumpRec ==
-  [cfg |-> tab.cfg, term |-> Top, sh |-> store[Len(store)].sh, d |-> res.d,
+  [cfg |-> tab.cfg, mesh |-> tab.mesh.name, term |-> Top, sh |-> store[Len(store)].sh, d |-> res.d,
    verdict |-> IF Accepted THEN "accept" ELSE "reject",
    why |-> IF Accepted THEN "" ELSE res.out[2],
    out |-> IF Accepted THEN res.out ELSE <<"none">>,
@@ -494,7 +545,7 @@ DumpRec ==
    inleaves |-> SetToSeq(Leaves(Top, "0")),
    valid |-> Valid(Top, "0"), nested |-> Nested(Top, FALSE),
    missing |-> SetToSeq(MissingKinds(Top, "0")),
-   dev |-> Deviation,
+   dev |-> Deviation, opp |-> NormalsOpposite,
    vals |-> [e \in Envs |-> M(Top, e, "0")]]
 DumpInv == (Applied /\ Live) => PrintT(ToJson(DumpRec))
 =============================================================================
